@@ -383,6 +383,14 @@ class SymNumpy:
         from .theory import searchsorted
         return searchsorted(to_arr(a), v, side)
 
+    def argsort(self, a, axis=-1, kind=None, order=None, stable=None):
+        """np.argsort of a 1-D integer array: a permutation perm of [0, n) (ghost inverse inv) with a[perm] non-decreasing
+        (adjacent form; the pairwise form is lemma adjacent-sorted=>sorted); ties keep their input order for the stable kinds."""
+        if not any_symbolic((a,), {}):
+            return _np.argsort(a, axis=axis, kind=kind, order=order)
+        from .theory import argsort
+        return argsort(to_arr(a), stable=bool(stable) or kind in ("mergesort", "stable"))
+
     def bincount(self, x, weights=None, minlength=0):
         if not any_symbolic((x, weights, minlength), {}):
             return _np.bincount(x, weights=weights, minlength=minlength)
